@@ -68,7 +68,7 @@ def run(rep):
     deep = rep.tier == "thorough"
     native.bounded_stand_in(rep, ID, "c06", ["rdfc"] + (["deep"] if deep else []), "c06_rdfc10_reference",
                             "normalize_with / relabel_with (SHA-256 and SHA-384, default limits) against an independent transcription of RDFC-1.0 (replay_src/c06/src/oracle.rs): canonical N-Quads equal byte for byte, identifier map is a bijection onto c14n0..c14n(n-1) and yields the document, no failure unless a limit is really exceeded; cycles / stars with 20 combinations of non-default depth factor and permutation limit: an error exactly when the limit is exceeded, the RDFC-1.0 document otherwise",
-                            ("about 470 000" if deep else "69 086") + " comparisons: every dataset of <= 3 quads over a 120-quad universe with 3 blank nodes, blank graph names, 2 predicates (quick: 3-quad datasets over one predicate only), plus cycles / cliques / stars / chains / two components of 2..5 blank nodes, plain, over two named graphs, with blank graph names, with one distinguished edge; 2..4 pairs / paths / rings of nodes from several groups with equal first-degree hashes; cycles of 11-13 nodes and two identical lists of 6 / 12 cells (more than 10 temporary identifiers); hubs of 2..6 leaves distinguishable two steps away; two hubs of 6 leaves (the default permutation limit) under " + ("all 720" if deep else "103") + " assignments of the distinguishing literals x 3 label schemes",
+                            ("about 470 000" if deep else "69 106") + " comparisons: every dataset of <= 3 quads over a 120-quad universe with 3 blank nodes, blank graph names, 2 predicates (quick: 3-quad datasets over one predicate only), plus cycles / cliques / stars / chains / two components of 2..5 blank nodes, plain, over two named graphs, with blank graph names, with one distinguished edge; 2..4 pairs / paths / rings of nodes from several groups with equal first-degree hashes; 10 datasets whose literals, language tags, IRIs hold control characters (C0, DEL, C1), quotes, backslashes and non-ASCII text, compared line by line with the canonical N-Quads escaping of RDFC-1.0 section 5 written independently in the oracle; cycles of 11-13 nodes and two identical lists of 6 / 12 cells (more than 10 temporary identifiers); hubs of 2..6 leaves distinguishable two steps away; two hubs of 6 leaves (the default permutation limit) under " + ("all 720" if deep else "103") + " assignments of the distinguishing literals x 3 label schemes",
                             "relabel_with steps 2-6, hash_first_degree_quads, hash_related_bnode, hash_n_degree_quads, BnodeIssuer, normalize_with sorting and the canonical N-Quads writer (escape-free terms) (c14n/src/rdfc10.rs, _cnq.rs, hash.rs)",
                             "./check C06 --replay <this file>   # replay_src/c06 rdfc")
     rep.not_covered += [
